@@ -43,6 +43,10 @@ extern int mpt_cldouble(long double *val, const char *src, const long double ran
 	if (errno == ERANGE && (tmp == HUGE_VALL || tmp == -HUGE_VALL)) {
 		return MPT_ERROR(BadValue);
 	}
+	/* non-zero number below value range (result is zero) */
+	if (errno == ERANGE && tmp == 0) {
+		return MPT_ERROR(BadValue);
+	}
 	if (range && (range[0] > tmp || tmp > range[1])) {
 		return MPT_ERROR(BadValue);
 	}
